@@ -237,6 +237,11 @@ def make_dataset(rng, kind, n=None):
             d["text"] = "%s %d" % (rng.choice(TEXT_POOL), i + 1)
         elif rng.random() < 0.25:
             d["width"] = 0                   # a bare marker: explicit width 0, no text
+    if len(data) >= 2 and rng.random() < 0.1:
+        # one datum entered twice (same time, text and width; it is still two data: two dots, two links, two boxes)
+        twin = dict(rng.choice(data))
+        twin["id"] = len(data) + 1
+        data.append(twin)
     rng.shuffle(data)
     return data
 
@@ -441,6 +446,26 @@ def drawing_record(backend, tl, doc, opts, data, kind):
     return rec
 
 
+def long_layer_case(rng, ns_min):
+    """More than 700 data with distinct texts in ONE layer on a long axis (clusters of three simultaneous events): layers longer
+    than any fixed chunk size, TeX names of three letters' worth of labels."""
+    n = 720
+    start = dt.datetime(2000, 1, 1)
+    data = []
+    for i in range(n):
+        data.append({"time": start + dt.timedelta(days=7 * (i // 3), hours=i % 3), "width": 5, "id": i + 1, "text": "e%d" % i})
+    rng.shuffle(data)
+    opts = make_options(rng, "time", data[:3], ns_min=ns_min)
+    opts.pop("domain", None)
+    opts.pop("margin", None)
+    # (coordinates x 1e5 must stay below 2^30: an axis of 10 000 units; 240 clusters of three 12-unit slots, 41 units apart)
+    opts["direction"] = rng.choice(["up", "down"])
+    opts["labelPadding"] = {"left": 2, "right": 2, "top": 3, "bottom": 2}
+    opts["labella"] = {"nodeSpacing": 3, "algorithm": "none"}
+    opts["initialWidth"] = opts["initialHeight"] = 10040
+    return data, opts, "time"
+
+
 def pinned_cases(rng, ns_min):
     """Fixed datasets that are drawn on every run: the last datum lies a fraction of a millisecond after a tick boundary of
     the data-derived (niced) axis domain - seconds, minutes, hours and days."""
@@ -454,6 +479,7 @@ def pinned_cases(rng, ns_min):
         opts = make_options(rng, "time", data, ns_min=ns_min)
         opts.pop("domain", None)
         out.append((data, opts, "time"))
+    out.append(long_layer_case(rng, ns_min))
     return out
 
 
@@ -679,6 +705,12 @@ def fixed_config(name):
         return data, {"direction": "up", "labella": {"maxPos": 300, "lineSpacing": 9, "nodeSpacing": 5, "stubWidth": 3}, "layerGap": 30,
                       "margin": {"left": 5, "right": 45, "top": 0, "bottom": 10},
                       "labelPadding": {"left": 6, "right": 1, "top": 0, "bottom": 4}}
+    if name in ("c12", "c13"):
+        # the same picture twice, the numbers given as ints (c12) and as floats (c13): 50 and 50.0 are equal, their spellings differ
+        num = (lambda v: int(v)) if name == "c12" else (lambda v: float(v))
+        data = [{"time": dt.datetime(2015, 5, 1 + 3 * i), "width": num(50), "text": "t%d" % i} for i in range(6)]
+        return data, {"initialWidth": num(400), "initialHeight": num(400), "layerGap": num(60),
+                      "labelPadding": {"left": num(2), "right": num(2), "top": num(3), "bottom": num(2)}}
     # data-derived domains for which nice() is NOT idempotent (the widened extent picks a coarser tick interval): a timeline
     # that fitted its axis again at a later export would draw another document
     # (c10, c11: two timelines whose data start at the same instant but span 40 s and 2 min - 5-second and 15-second ticks:
@@ -800,7 +832,7 @@ def play_timelines(h, seed):
 
 def random_timelines_history(rng):
     ids = [1, 2, 3, 4][:rng.randint(2, 4)]
-    cfgs = ["c1", "c2", "c3", "c4", "c5", "c6", "c7", "c8", "c9", "c10", "c11", "c10", "c11", "r1", "r2", "r3", "r4", "r5", "r6", "r7", "r8"]
+    cfgs = ["c1", "c2", "c3", "c4", "c5", "c6", "c7", "c8", "c9", "c10", "c11", "c10", "c11", "c12", "c13", "c12", "c13", "r1", "r2", "r3", "r4", "r5", "r6", "r7", "r8"]
     h = []
     built = set()
     for _ in range(rng.randint(4, 14)):
